@@ -393,13 +393,14 @@ func (sp *Stepper) fork(root string) (*Stepper, error) {
 // step runs c and returns the observation record.
 func (sp *Stepper) step(c Cmd, tag string) *Obs {
 	c = complete(c)
+	rawPre := sp.St.readLog()
+	_ = parseLog(rawPre, sp.IDs, true) // learn the ids of a store that was not built through this stepper
 	var pre Observation
 	if sp.last != nil {
 		pre = *sp.last
 	} else {
 		pre = sp.St.observe(sp.IDs)
 	}
-	rawPre := sp.St.readLog()
 	args, stdin := invocation(c, sp.IDs)
 	var env []string
 	if ids := c.strs("forceids"); len(ids) > 0 {
